@@ -84,6 +84,68 @@ def run(res, tier, build_ok):
             reqs.append(("enc %s %s %s" % (hx(bytearray(L)), enc_layout(layout), enc_dict(d)), "ok " + hx(b), c["cls"]))
             reqs.append(("dec %s %s" % (hx(b), enc_layout(layout)), common.canon_dict(d2), c["cls"]))
             reqs.append(("wf %s %d" % (enc_layout(layout), L), "ok true", c["cls"]))
+    # ---- the same three clauses on CDBs the *constructors* build, one after another (the way an application builds
+    #      them): decode(built) returns the arguments; building again with one argument changed changes only that
+    #      argument's decoded value
+    for c in data["commands"]:
+        module = c["module"].split(".")[-1]
+        cls = cmds.get_class(c["module"], c["cls"])
+        s = std.get(module, c["cls"])
+        if s is None or c["cls"].startswith("ATAPassThrough"):
+            continue
+        op = None
+        for sn, e in sets.items():
+            op = cmds.find_op(e, s["opname"])
+            if op is not None:
+                break
+        if op is None:
+            continue
+        argf = [f for f in s["fields"] if f["kind"] == "arg"]
+        # library key of each standard field: the table entry occupying the same bits
+        lay = cls._cdb_bits
+
+        def key_of(f, L):
+            lsb = 8 * (L - 1 - f["byte"]) + f["msb"] + 1 - f["width"]
+            for k, (m, off) in lay.items():
+                nb = max(1, (m.bit_length() + 7) // 8)
+                tz = (m & -m).bit_length() - 1
+                if 8 * (L - off - nb) + tz == lsb and mask_width(m) == f["width"]:
+                    return k
+            return None
+        for base in c01.make_cases(c, s, rng, 1)[: 3 * scale]:
+            kw = c01.finalize_kwargs(c, base, rng)
+            try:
+                first = cls(op, **kw)
+            except Exception:
+                break
+            L = len(first.cdb)
+            d0 = cls.unmarshall_cdb(first.cdb)
+            for f in argf:
+                a = f["arg"]
+                k = key_of(f, L)
+                if k is None or not isinstance(kw.get(a), int) or a in ("blocksize",) or kw[a] >= (1 << f["width"]):
+                    continue
+                if a in c01.size_params(c) and kw[a] + 1 > 4096:
+                    continue
+                kw2 = dict(kw)
+                kw2[a] = (kw[a] + 1) % (1 << f["width"])
+                if "data" in kw2 and isinstance(kw2.get("data"), (bytes, bytearray)) and a in ("tl",):
+                    continue            # the payload would have to change with the length
+                try:
+                    second = cls(op, **kw2)
+                except Exception:
+                    continue
+                d1 = cls.unmarshall_cdb(second.cdb)
+                res.case(("built-locality", c["cls"], a), None)
+                res.count("constructor-built pairs differing in one argument")
+                bad = [x for x in d1 if x != k and d1[x] != d0.get(x)]
+                if d1.get(k) != kw2[a] or bad:
+                    res.violation("cls=%s built locality arg=%s" % (c["cls"], a),
+                                  "%s built with %s=%d after the same command with %s=%d: decoding the second CDB gives %s=%s%s" % (
+                                      c["cls"], a, kw2[a], a, kw[a], k, d1.get(k), (" and changes " + ", ".join(bad)) if bad else ""),
+                                  {"class": c["cls"], "first": {x: (v if isinstance(v, int) else None) for x, v in kw.items()}, "changed": {a: kw2[a]},
+                                   "first_cdb": bytes(first.cdb).hex(), "second_cdb": bytes(second.cdb).hex()})
+                    break
     reps = drv.batch([r[0] for r in reqs])
     for (line, impl, cls), rep in zip(reqs, reps):
         def unordered(t):
